@@ -212,7 +212,7 @@ func (s *session) doExec(idx int, op opRec, code int) opResult {
 	nonce := fmt.Sprintf("vq%d_%dz", os.Getpid(), idx)
 	var args []string
 	switch op.V {
-	case "run", "fdexec":
+	case "run", "fdexec", "cgexec":
 		// exit 99 if an environment variable of an EARLIER request is still there
 		args = []string{"/probe/cprobe", nonce, fmt.Sprintf("envexit:VQMARK:99:%d", code)}
 	case "envrun":
@@ -258,6 +258,16 @@ func (s *session) doExec(idx int, op opRec, code int) opResult {
 		if f, err := os.Open(s.probeDir + "/cprobe"); err == nil {
 			defer f.Close()
 			p.ExecFile = f.Fd()
+		}
+	}
+	if op.V == "cgexec" {
+		// the program is started directly inside a cgroup passed as a descriptor (CLONE_INTO_CGROUP)
+		if dir, err := os.MkdirTemp("/sys/fs/cgroup/unified", "verif-cg-"); err == nil {
+			defer syscall.Rmdir(dir)
+			if f, err := os.Open(dir); err == nil {
+				defer f.Close()
+				p.CgroupFD = f.Fd()
+			}
 		}
 	}
 	switch op.CB {
